@@ -112,8 +112,13 @@ func gen(g *mon.Gen) {
 		g.Emit(&Case{Kind: "tcp-consistent", FC: fc, Lo: 0, Hi: hi, Seed: rng.Int63()})
 		g.Emit(&Case{Kind: "rtu-shaped", FC: fc, Lo: 0, Hi: hi, Seed: rng.Int63()})
 	}
-	for i := 0; i < g.Pick(60, 6000); i++ {
-		g.Emit(&Case{Kind: "mutate", Seed: rng.Int63()})
+	// every (function, request/response, framing) shape is mutated, not a random draw of shapes
+	for rep := 0; rep < g.Pick(2, 150); rep++ {
+		for _, fc := range specref.FCs {
+			for shape := 0; shape < 4; shape++ {
+				g.Emit(&Case{Kind: "mutate", FC: int(fc), N: shape, Seed: rng.Int63()})
+			}
+		}
 	}
 	for fc := 0; fc < 256; fc++ {
 		g.Emit(&Case{Kind: "small", FC: fc})
@@ -429,7 +434,13 @@ func run(ci any, r *mon.Rec) {
 			}
 		}
 	case "mutate":
-		base := tailFrame(rng)
+		q := libx.LegalReq(rng, uint8(c.FC), []float64{0, 0.5, 0.5, 1}[rng.Intn(4)])
+		var base []byte
+		if c.N < 2 {
+			base = q.Encode(specref.Framing(c.N))
+		} else {
+			base = libx.ReplyFor(rng, q).Encode(specref.Framing(c.N - 2))
+		}
 		for k := 0; k <= len(base); k++ {
 			observe(c, r, base[:k], base[k:]) // the tail continues the very same frame: the most tempting stale data
 		}
@@ -444,6 +455,24 @@ func run(ci any, r *mon.Rec) {
 			m := append([]byte{}, base...)
 			m[rng.Intn(len(m))] = byte(rng.Intn(256))
 			observe(c, r, m, nil)
+		}
+		// truncations of a valid TCP frame with the MBAP length field corrected (internally consistent but short), and
+		// RTU truncations with a recomputed CRC
+		if len(base) >= 9 && base[2] == 0 && base[3] == 0 && int(base[4])<<8|int(base[5]) == len(base)-6 {
+			for k := 7; k < len(base); k++ {
+				m := append([]byte{}, base[:k]...)
+				m[4], m[5] = byte((k-6)>>8), byte(k-6)
+				observe(c, r, m, base[k:])
+			}
+		} else if len(base) >= 5 {
+			for k := 3; k < len(base)-1; k++ {
+				m := append([]byte{}, base[:k]...)
+				crc := specref.CRC(m[:k-2])
+				if k >= 4 {
+					m[k-2], m[k-1] = byte(crc), byte(crc>>8)
+				}
+				observe(c, r, m, base[k:])
+			}
 		}
 	case "small":
 		alpha := []byte{0, 1, 3, 0x7f, 0x80, 0xff}
